@@ -276,13 +276,11 @@ func generate(o hx.Opts) []string {
 	rounds := 1 * o.Scale
 	if thorough {
 		nKeys, cas = len(clientKeys), []int{1, 2, 0}
+		rounds = 4 * o.Scale
 	}
 	for round := 0; round < rounds; round++ {
 		for cm := -1; cm < 16; cm++ {
 			for sm := -1; sm < 16; sm++ {
-				if !thorough && (cm < 0 || sm < 0) {
-					continue
-				}
 				for k := 0; k < nKeys; k++ {
 					for a := 0; a < 6; a++ {
 						for _, ca := range cas {
@@ -310,18 +308,18 @@ func generate(o hx.Opts) []string {
 	}
 
 	// 5. uniform random sample over all dimensions (pairwise coverage)
-	nr := 1500 * o.Scale
+	nr := 3000 * o.Scale
 	if thorough {
-		nr = 40000 * o.Scale
+		nr = 150000 * o.Scale
 	}
 	for i := 0; i < nr; i++ {
 		emit(randomCfg(r, "tlcp"))
 	}
 
 	// 6. DTLCP: the same generators, sampled more thinly (each handshake waits ~0.2 s)
-	nd, ndb := 260*o.Scale, 3*o.Scale
+	nd, ndb := 600*o.Scale, 5*o.Scale
 	if thorough {
-		nd, ndb = 12000*o.Scale, 60*o.Scale
+		nd, ndb = 60000*o.Scale, 200*o.Scale
 	}
 	for cm := 0; cm < 16; cm++ { // every suite subset pair once, keys/policy at random
 		for sm := 0; sm < 16; sm++ {
